@@ -9,6 +9,7 @@ CONSTANTS
   FinishFull = TRUE
   With256 = TRUE
   Targets = {}
+  SharedBuf = FALSE
 INIT Init
 NEXT Next
 INVARIANT EncodeDecode
